@@ -1987,6 +1987,11 @@ func (db *DB) newSyncExecutor(ctx context.Context) (*syncExecutor, error) {
 		if pos, err = db.Pos(); err != nil {
 			return nil, fmt.Errorf("pos: %w", err)
 		}
+		// The in-memory sync tracking described the position that was just
+		// discarded (e.g. "synced to the end of the WAL", which makes a later
+		// truncation look like litestream's own checkpoint). It says nothing
+		// about the re-established baseline.
+		db.syncState = syncState{}
 	}
 
 	return &syncExecutor{
